@@ -156,8 +156,11 @@ class MapToMolecule(Processor):
         # after each other in that case the connected component needs to
         # be an integer multiple of the block
         n_fragments = 0
+        resids = nx.get_node_attributes(meta_molecule, "resid")
         for fragment in nx.connected_components(restart_graph):
-            frag_nodes = list(fragment)
+            # consecutive copies of the block are told apart by their
+            # residue ids, never by the iteration order of the set
+            frag_nodes = sorted(fragment, key=resids.get)
             block = self.force_field.blocks[restart_attr[frag_nodes[0]]]
             block_res = make_residue_graph(block, attrs=('resid', 'resname'))
             len_block = len(block_res)
